@@ -28,10 +28,12 @@ CONSTANTS
   FailSaves = FALSE
   Focus = TRUE
   Record = FALSE
+  ReadOnly = FALSE
   RM = TRUE
   Slots = 2
   RmUuids = {1}
   Scrapes = FALSE
+  HookScrapes = FALSE
   Marking = FALSE
   WindAt = 0
   Gaps = {}
